@@ -4,7 +4,7 @@ CONSTANTS FlawShallowListFreeze = FALSE
  FlawAppendSharesCapacity = FALSE
  FlawSortedAliasesOrdered = FALSE
  OnlyTargets = {}
- DeepTargets = {"x", "L"}
+ DeepTargets = {"x"}
  MaxMut = 2
  DeepVias = {"direct"}
  LastVias = {"alias"}
